@@ -8,7 +8,7 @@ EXPLANATION = (
     "=> Z (never early) and, at every idle state, Z => join() done (never hangs); no item handed to two blocks."
 )
 ASSUMPTIONS = ["bounds: <= 3 puts, <= 2 consumers x <= 2 rounds, <= 2 cancellations, one join()"]
-BUDGET = {"quick": 120, "thorough": 1800}
+BUDGET = {"quick": 120, "thorough": 900}
 
 
 def cell(name, **scen):
